@@ -1,7 +1,7 @@
 """Exploration driver: decision enumeration + NeedFork restarts; function / slice runners."""
 import ast
 from .sym import *
-from .interp import Engine, Oracle, Frame, PyRaise, _Return, Exit, Closure, SObj, HList, HDict
+from .interp import Engine, Oracle, Frame, PyRaise, _Return, Exit, Closure, SObj, HList, HDict, _EndPath
 from . import expr as _expr  # attaches methods
 from . import builtins_ as _b
 
@@ -15,6 +15,8 @@ class RunResult:
         self.env = env
         self.class_store = eng.class_store
         self.decisions = list(eng.oracle.taken)
+        self.loop_obligations = list(eng.loop_obligations)
+        self.ended = bool(isinstance(env, dict) and env.get("_ended"))
         self.eng = eng
 
     def normal_cond(self):
@@ -45,11 +47,13 @@ class Program:
         e.oracle = Oracle()
         e.max_unroll = 64
         e.trace_calls = []
+        e.loop_contracts = {}
+        e.loop_obligations = []
         e.reset()
         return e
 
 
-def explore(program, body_fn, contracts=None, hooks=None, max_runs=4000):
+def explore(program, body_fn, contracts=None, hooks=None, max_runs=4000, loop_contracts=None):
     """body_fn(eng) -> (value, env).  Returns list[RunResult] covering all decision sequences."""
     forced = set()
     while True:
@@ -63,11 +67,14 @@ def explore(program, body_fn, contracts=None, hooks=None, max_runs=4000):
                 if n > max_runs:
                     raise Unsupported(f"more than {max_runs} decision paths")
                 eng = program.engine(contracts, hooks)
+                eng.loop_contracts = dict(loop_contracts or {})
                 eng.forced_sites = set(forced)
                 eng.oracle = Oracle(prefix)
                 eng.frames.append(Frame("<harness>", {}, []))
                 try:
                     value, env = body_fn(eng)
+                except _EndPath:
+                    value, env = None, {"_ended": True}
                 except PyRaise as e:
                     eng.exits.append(Exit(True, e.exc_cls, e.args_, "uncaught"))
                     eng.dead = True
